@@ -6,6 +6,7 @@ import (
 	"sort"
 	"strings"
 	"sync/atomic"
+	"syscall"
 	"time"
 
 	"github.com/mdzio/go-mqtt/auth"
@@ -529,6 +530,14 @@ func (r *run) client(st *cstate) {
 			}
 			r.endConn(c, "fin")
 			c.nc.Close()
+		case "ioerr":
+			// the broker's next read on this connection fails with EIO although
+			// the peer is alive: for the broker the connection is broken
+			if c == nil || c.nc.Closed() || c.Dead {
+				continue
+			}
+			r.endConn(c, "ioerr")
+			c.nc.Peer().InjectReadErr(syscall.EIO)
 		case "shutwr":
 			// half-close: FIN after everything written so far, keep reading
 			if c == nil || c.nc.Closed() || c.HalfClosed > 0 {
